@@ -144,7 +144,7 @@ fn segment(spec: &'static LangSpec) -> BoxedStrategy<String> {
     opts.push((1, Just(String::new()).boxed()));
     // language-specific directives and markers inside comments
     let specials: &'static [&'static str] = match spec.id {
-        "go" => &["//go:build linux", "//go:generate stringer -type=Pill", "//go:build linux\n//", "//go:embed teh.txt\n// Teh real comment.", "//go:", "// +build ignore", "//nolint:errcheck // teh reason"],
+        "go" => &["//go:build linux", "//go:generate stringer -type=Pill", "//go:build linux\n//", "//go:embed teh.txt\n// Teh real comment.", "//go:", "//go:build ignore\n//go:generate ls\n// Package main does teh things.", "//go:noescape\n//go:noinline\n// fastpath is teh hot loop.", "//go:build linux\n//go:debug x=123\n\n// Teh package.", "// +build ignore", "//nolint:errcheck // teh reason"],
         "rust" => &["//! # Titel", "/// ```\n/// let teh = 1;\n/// ```", "// harper:ignore teh", "//", "///", "/**/", "/***/", "// spellchecker:ignore wrold"],
         "python" => &["#!/usr/bin/env python", "# -*- coding: utf-8 -*-", "# type: ignore", "# noqa: E501 teh", "#", "\"\"\"Teh docstring.\"\"\""],
         "shellscript" => &["#!/bin/bash", "#!/usr/bin/env teh", "#", "# shellcheck disable=SC2086", ": <<'EOF'\nteh heredoc\nEOF"],
